@@ -54,8 +54,9 @@ type StreamSpec struct {
 	Lang      string `json:"lang"`
 	Default   bool   `json:"default"`
 	SegDurMs  int    `json:"segDurMs"`
-	LL        bool   `json:"ll"`      // Low-Latency: SERVER-CONTROL CAN-BLOCK-RELOAD + parts + preload hint
-	CanSkip   bool   `json:"canSkip"` // CAN-SKIP-UNTIL advertised
+	UriStyle  string `json:"uriStyle"` // with Scenario.Dirs: rel ("../media/x") | abspath ("/live/media/x") | absurl | sub ("m/x")
+	LL        bool   `json:"ll"`       // Low-Latency: SERVER-CONTROL CAN-BLOCK-RELOAD + parts + preload hint
+	CanSkip   bool   `json:"canSkip"`  // CAN-SKIP-UNTIL advertised
 }
 
 // Fault is a fault injected at a global request index.
@@ -73,6 +74,7 @@ type Scenario struct {
 	CloseWhen   string       `json:"closeWhen"` // "" | tracks | data | eos
 	CloseTwice  bool         `json:"closeTwice"`
 	OnTracksErr bool         `json:"onTracksErr"`
+	Dirs        bool         `json:"dirs"`      // playlists under /live/pl/, media under /live/media/ (or /live/pl/m/), index at /live/index.m3u8
 	BlockData   int          `json:"blockData"` // block the first data callback this many ms (look-ahead test)
 	CloseData   int          `json:"closeData"` // Close from inside the k-th data callback (0: never)
 	CloseAtMs   int          `json:"closeAtMs"` // Close this many ms after Start (0: never)
@@ -98,6 +100,7 @@ type segFile struct {
 }
 
 type streamState struct {
+	dirs   bool
 	spec   StreamSpec
 	polls  int
 	segs   map[int][]byte
@@ -225,6 +228,18 @@ func (st *streamState) playlist(j int, v PLVersion, base string) (string, error)
 	if st.spec.AbsURL {
 		pre = base + "/"
 	}
+	if st.dirs {
+		switch st.spec.UriStyle {
+		case "abspath":
+			pre = "/live/media/"
+		case "absurl":
+			pre = base + "/live/media/"
+		case "sub":
+			pre = "m/"
+		default:
+			pre = "../media/"
+		}
+	}
 	q := ""
 	if st.spec.Query != "" {
 		q = "?" + st.spec.Query
@@ -348,6 +363,9 @@ func codecsOf(st StreamSpec) string {
 
 func (r *runner) handle(i int, req *http.Request) (Resp, string, map[string]interface{}) {
 	path := req.URL.Path
+	if r.sc.Dirs {
+		path = r.flatten(path)
+	}
 	fault := r.faults[i]
 	info := map[string]interface{}{"s": -1, "id": -1, "ver": 0, "ms": 0, "n": 0, "end": 0, "vod": 0, "hint": 0, "mut": ""}
 	resp := Resp{Fault: fault}
@@ -363,7 +381,7 @@ func (r *runner) handle(i int, req *http.Request) (Resp, string, map[string]inte
 			if s.Default {
 				def = "YES"
 			}
-			fmt.Fprintf(&sb, "#EXT-X-MEDIA:TYPE=AUDIO,GROUP-ID=\"aud\",NAME=\"%s\",LANGUAGE=\"%s\",AUTOSELECT=YES,DEFAULT=%s,URI=\"s%d.m3u8%s\"\n", s.Name, s.Lang, def, j, qs(s.Query))
+			fmt.Fprintf(&sb, "#EXT-X-MEDIA:TYPE=AUDIO,GROUP-ID=\"aud\",NAME=\"%s\",LANGUAGE=\"%s\",AUTOSELECT=YES,DEFAULT=%s,URI=\"%ss%d.m3u8%s\"\n", s.Name, s.Lang, def, r.plDir(), j, qs(s.Query))
 		}
 		cs := codecsOf(r.streams[0].spec)
 		for j := 1; j < len(r.streams); j++ {
@@ -373,7 +391,7 @@ func (r *runner) handle(i int, req *http.Request) (Resp, string, map[string]inte
 		if len(r.streams) > 1 {
 			aud = ",AUDIO=\"aud\""
 		}
-		fmt.Fprintf(&sb, "#EXT-X-STREAM-INF:BANDWIDTH=1000000,CODECS=\"%s\"%s\ns0.m3u8%s\n", cs, aud, qs(r.streams[0].spec.Query))
+		fmt.Fprintf(&sb, "#EXT-X-STREAM-INF:BANDWIDTH=1000000,CODECS=\"%s\"%s\n%ss0.m3u8%s\n", cs, aud, r.plDir(), qs(r.streams[0].spec.Query))
 		resp.Body = []byte(sb.String())
 	case rePl.MatchString(path):
 		kind = "pl"
@@ -462,6 +480,43 @@ func (r *runner) handle(i int, req *http.Request) (Resp, string, map[string]inte
 	}
 	r.emit(e)
 	return resp, kind, info
+}
+
+// flatten maps the directory layout onto the flat names the handler knows; a file requested under the wrong directory is
+// not found (a client that resolves relative URIs wrongly ends up there).
+func (r *runner) flatten(path string) string {
+	i := strings.LastIndexByte(path, '/')
+	dir, file := path[:i+1], "/"+path[i+1:]
+	switch {
+	case file == "/index.m3u8":
+		if dir == "/live/" {
+			return file
+		}
+	case rePl.MatchString(file):
+		if dir == "/live/pl/" {
+			return file
+		}
+	default:
+		m := regexp.MustCompile(`^/s(\d+)_`).FindStringSubmatch(file)
+		if m != nil {
+			j, _ := strconv.Atoi(m[1])
+			want := "/live/media/"
+			if j < len(r.streams) && r.streams[j].spec.UriStyle == "sub" {
+				want = "/live/pl/m/"
+			}
+			if dir == want {
+				return file
+			}
+		}
+	}
+	return "/notfound" + path
+}
+
+func (r *runner) plDir() string {
+	if r.sc.Dirs {
+		return "pl/"
+	}
+	return ""
 }
 
 func qs(q string) string {
@@ -556,7 +611,7 @@ func Run(w *trace.W, idx int, sc Scenario) error {
 		r.faults[f.Req] = f.Kind
 	}
 	for _, s := range sc.Streams {
-		st := &streamState{spec: s, segs: map[int][]byte{}, ranges: map[int][2]int{}}
+		st := &streamState{spec: s, segs: map[int][]byte{}, ranges: map[int][2]int{}, dirs: sc.Dirs}
 		if s.Container == "fmp4" {
 			b, err := InitFMP4(s.Tracks, st.ids())
 			if err != nil {
@@ -587,6 +642,12 @@ func Run(w *trace.W, idx int, sc Scenario) error {
 	uri := "http://stub/s0.m3u8" + qs(sc.Streams[0].Query)
 	if sc.Entry == "multi" {
 		uri = "http://stub/index.m3u8"
+	}
+	if sc.Dirs {
+		uri = "http://stub/live/pl/s0.m3u8" + qs(sc.Streams[0].Query)
+		if sc.Entry == "multi" {
+			uri = "http://stub/live/index.m3u8"
+		}
 	}
 	var trackList []*gohlslib.Track
 	var dataN, inCb atomic.Int64
